@@ -37,7 +37,7 @@ import time
 import traceback
 
 from ..common import Report, deadline, pmap, seed
-from ._optutil import path_is_valid, quiet, rand_net, run_child, seed_globals, tree_query_mismatch
+from ._optutil import mk_tmp, run_tmpbase, path_is_valid, quiet, rand_net, run_child, seed_globals, tree_query_mismatch
 
 MOD = "vt.props.c15_bounded"
 EXIT_CRASH = 17
@@ -396,7 +396,7 @@ def run_point(case):
     call = fork_call if case.get("proc", "fork") == "fork" else sub_call
     problems = []
     info = {"leftovers": 0, "reached": False, "entry_state": None}
-    d = tempfile.mkdtemp(prefix="c15-")
+    d = mk_tmp("c15-")
     try:
         base = {"dir": d, "scn": scn}
         rc, prep = call("prepare", base)
@@ -506,7 +506,7 @@ def _work(case):
 
 
 def learn_trace(scn):
-    d = tempfile.mkdtemp(prefix="c15l-")
+    d = mk_tmp("c15l-")
     try:
         rc, _ = fork_call("prepare", {"dir": d, "scn": scn})
         if rc != 0:
@@ -557,7 +557,7 @@ def replay(case):
     return True, f"recovered (crash point reached: {out['info']['reached']}, leftovers: {out['info']['leftovers']}) :: " + _desc(case)
 
 
-def run_bounded(rep: Report, tier: str) -> None:
+def _run_bounded(rep: Report, tier: str) -> None:
     import cotengra  # noqa: F401  (warm template for the forked children)
 
     quick = tier == "quick"
@@ -641,6 +641,11 @@ def run_bounded(rep: Report, tier: str) -> None:
     rep.assumptions.append("C15: POSIX rename is atomic; the crash model is process death (os._exit) - data handed to write() and flushed is on disk, "
                            "unflushed data is lost; power loss / fsync ordering is not modelled; writes through os.open/os.write or tempfile are not instrumented")
     rep.trusted_base.append("os.fork/os._exit/os.waitpid; pickle.load rejects every strict prefix of a pickle stream (checked for each partial entry seen)")
+
+
+def run_bounded(rep: Report, tier: str) -> None:
+    with run_tmpbase("c15run-"):
+        _run_bounded(rep, tier)
 
 
 if __name__ == "__main__":
